@@ -141,8 +141,13 @@ struct Plan {
     // "flavours" (compare the outcome tables of all policies of the plan)
     std::string diff;
     std::vector<std::vector<int>> orders;
+    // sched-sim: events [0, setup_events) run before the threads start, the
+    // others are the script of the task that works on the second policy
+    int setup_events = 0;
 };
 
+J event_to_json(const Event& e);
+Event event_from_json(const J& o);
 J plan_to_json(const Plan& p);
 Plan plan_from_json(const J& j);
 
